@@ -258,7 +258,7 @@ theorem C07_push_in_order_appends (st : State) (h : WF st) (id : Nat) (it : Item
         rw [hkn, hk _ hp]; exact hb
       simp [this]
 
-theorem evict_spec (cap icap : Nat) (hcap : 1 ≤ cap) (st : State) (inv : Inv0 PT cap icap st) (rxt64 : T64) :
+theorem C07_evict_spec (cap icap : Nat) (hcap : 1 ≤ cap) (st : State) (inv : Inv0 PT cap icap st) (rxt64 : T64) :
     ((evict cap st rxt64).2 = none ∧ (evict cap st rxt64).1 = st ∧
         ¬ (st.items.length = cap ∧ after (kv st 0) rxt64 = false)) ∨
     ((evict cap st rxt64).2 = some (hkey st 0) ∧ st.items.length = cap ∧
@@ -303,7 +303,7 @@ theorem C07_evict_top_only (cap icap : Nat) (hcap : 1 ≤ cap) (st : State) (inv
   · rename_i it hit
     exact ⟨(by intro k h; cases h), (by intro _ h; rw [hit] at h; cases h)⟩
   · rename_i hnone
-    have es := evict_spec cap icap hcap st inv.1 (ofTime rxt)
+    have es := C07_evict_spec cap icap hcap st inv.1 (ofTime rxt)
     generalize evict cap st (ofTime rxt) = ev at es ⊢
     have hevd : ∀ (a b : HR), a.evicted = ev.2 → b.evicted = ev.2 → ∀ (c : Prop) [Decidable c],
         (if c then a else b).evicted = ev.2 := by
